@@ -169,14 +169,14 @@ class Model:
             return self.execute(concrete, value, sels, path)
         return serialize_leaf(base, value)
 
-    def run(self):
+    def run(self, root_value=None):
         op = self.op
         serial = op.kind == "mutation"
-        self.exp.data = self.execute(op.root_type, None, op.sel, (),
+        self.exp.data = self.execute(op.root_type, root_value, op.sel, (),
                                      serial=serial)
         self.exp.root_keys = list(self.exp.data.keys())
         return self.exp
 
 
-def expected_response(spec, op, world):
-    return Model(spec, op, world).run()
+def expected_response(spec, op, world, root_value=None):
+    return Model(spec, op, world).run(root_value)
